@@ -7,6 +7,7 @@ package pubschema
 
 import (
 	"encoding/json"
+	"fmt"
 	"os"
 	"path/filepath"
 	"sort"
@@ -240,3 +241,132 @@ func ShortID(id string) string { return strings.TrimPrefix(id, base) }
 
 // FullID adds it.
 func FullID(short string) string { return base + short }
+
+// ---------------------------------------------------------------------------
+// sample instances
+
+var patternSamples = map[string]string{
+	`^(?:[a-z]|[a-z0-9][a-z0-9-+]*[a-z0-9])$`:                 "abc",
+	`^\-?[0-9]+(\.[0-9]+)?$`:                                  "1.00",
+	`^\-?[0-9]+(\.[0-9]+)?%$`:                                 "10%",
+	`^[A-Z0-9]{2,3}$`:                                         "KGM",
+	`^[A-Z0-9Ñ&]+$`:                                           "ABC123",
+	`^[0-9]{4}-[0-9]{2}-[0-9]{2}T[0-9]{2}:[0-9]{2}:[0-9]{2}$`: "2024-06-13T10:00:00",
+	`^[A-Z0-9]+$`:                                             "ES",
+	`^[A-Za-z0-9]+([\.\-\/ _\:]?[A-Za-z0-9]+)*$`:              "ABC",
+	`^([A-ZÑ\&]{4})([0-9]{6})([A-Z0-9]{3})$`:                  "XAXX010101000",
+	`^([A-ZÑ\&]{3})([0-9]{6})([A-Z0-9]{3})$`:                  "AAA010101AAA",
+}
+
+// Constrained reports whether a scalar node restricts its values by pattern,
+// format, const or enumeration (directly or through oneOf / anyOf).
+func (s *Set) Constrained(n Node) bool {
+	n = s.Resolve(n)
+	if n.S == nil {
+		return false
+	}
+	for _, k := range []string{"pattern", "format", "const", "enum"} {
+		if _, ok := n.S[k]; ok {
+			return true
+		}
+	}
+	for _, k := range []string{"oneOf", "anyOf"} {
+		if l, ok := n.S[k].([]any); ok {
+			for _, e := range l {
+				if m, ok := e.(map[string]any); ok && s.Constrained(Node{S: m, File: n.File}) {
+					return true
+				}
+			}
+		}
+	}
+	return false
+}
+
+// Sample builds a small instance the node accepts: objects carry their
+// required members only, lists are empty unless minItems says otherwise.
+// It is a best effort (the referee decides); unknown shapes give "x".
+func (s *Set) Sample(n Node, depth int) any {
+	n = s.Resolve(n)
+	if n.S == nil || depth > 8 {
+		return map[string]any{}
+	}
+	if c, ok := n.S["const"]; ok {
+		return c
+	}
+	if e, ok := n.S["enum"].([]any); ok && len(e) > 0 {
+		return e[0]
+	}
+	for _, k := range []string{"oneOf", "anyOf"} {
+		if l, ok := n.S[k].([]any); ok && len(l) > 0 {
+			if _, isObj := n.S["properties"]; !isObj {
+				if m, ok := l[0].(map[string]any); ok {
+					return s.Sample(Node{S: m, File: n.File}, depth+1)
+				}
+			}
+		}
+	}
+	switch s.Kind(n) {
+	case "object":
+		out := map[string]any{}
+		_, nodes := s.Props(n)
+		if req, ok := n.S["required"].([]any); ok {
+			for _, r := range req {
+				if name, ok := r.(string); ok {
+					if pn, ok := nodes[name]; ok {
+						out[name] = s.Sample(pn, depth+1)
+					} else {
+						out[name] = "x"
+					}
+				}
+			}
+		}
+		return out
+	case "array":
+		if min, ok := n.S["minItems"].(float64); ok && min >= 1 {
+			if it, ok := s.Items(n); ok {
+				return []any{s.Sample(it, depth+1)}
+			}
+		}
+		return []any{}
+	case "map":
+		return map[string]any{}
+	}
+	switch n.S["type"] {
+	case "integer", "number":
+		return json.Number("1")
+	case "boolean":
+		return true
+	case "string", nil:
+		if p, ok := n.S["pattern"].(string); ok {
+			if v, ok := patternSamples[p]; ok {
+				return v
+			}
+		}
+		switch n.S["format"] {
+		case "uuid":
+			return "0190f5f0-7f3c-7000-8000-0123456789ab"
+		case "date":
+			return "2024-06-13"
+		case "date-time":
+			return "2024-06-13T10:00:00Z"
+		case "uri":
+			return "https://example.com/x"
+		}
+		return "x"
+	}
+	return "x"
+}
+
+// TypeID returns the short id of the published type a node resolves to, or ""
+// when it is an inline schema.
+func (s *Set) TypeID(n Node) string {
+	n = s.Resolve(n)
+	if n.S == nil || n.File == nil {
+		return ""
+	}
+	id, _ := n.File["$id"].(string)
+	if r, ok := s.Root(id); ok && fmt.Sprintf("%p", r.S) == fmt.Sprintf("%p", n.S) {
+		return ShortID(id)
+	}
+	return ""
+}
